@@ -61,6 +61,27 @@ def scenario(rng, sid, tier):
         P += ["a0.accept s1 h0"]; lines_acc = []
     P += ["s0.connect 10.0.0.2:8000 h1"]
     prog = ["do top " + x for x in P] + lines_acc
+    if rng.random() < 0.3:
+        # phases of explicit writes of mixed sizes (sub-MSS and full segments) separated by idle
+        # periods: the window sits between one and two segments when the next drop comes
+        hid_ = [100]
+        def nh():
+            hid_[0] += 1; return hid_[0]
+        ctx = "h1"
+        for phase in range(rng.choice([1, 2, 3])):
+            for _ in range(rng.choice([1, 3, 8, 11, 15])):
+                h = nh()
+                ln = rng.choice([100, 100, 100, 1, mtu // 2, mtu, mtu, 2 * mtu, 3 * mtu + 7])
+                prog.append("do %s s0.write h%d stream=5 len=%d bufs=%d" % (ctx, h, ln, rng.choice([1, 1, 2])))
+                ctx = "h%d" % h
+            if rng.random() < 0.7:
+                tk = nh(); hk = nh()
+                prog.append("do %s t%d.expires_after %d" % (ctx, tk, rng.choice([1000000, 300000000, 5000000000])))
+                prog.append("do %s t%d.wait h%d" % (ctx, tk, hk))
+                ctx = "h%d" % hk
+        prog.append("do h0 s1.read_loop h3 cap=%d" % cap_r)
+        prog.append("do top run")
+        return "== %s\n%s\n%s\nend\n" % (sid, "\n".join(lines), "\n".join(prog))
     prog.append("do h1 s0.write_loop h2 stream=5 total=%d chunk=%d" % (total, chunk))
     prog.append("do h0 s1.read_loop h3 cap=%d" % cap_r)
     if rng.random() < 0.4:
